@@ -78,7 +78,7 @@ type c01Params struct {
 	in      int // index into connScripts, -1 = no inbound connection
 	out     int // index into connScripts, -1 = refuse
 	domL    bool
-	tail    int // 0 Close, 1 DeletePeer;Close, 2 DeletePeer;AddPeer;Close, 3 DeletePeer || AddPeer, then Close, 4 DeletePeer || Close
+	tail    int // 0 Close, 1 DeletePeer;Close, 2 DeletePeer;AddPeer;Close, 3 DeletePeer || AddPeer, then Close, 4 DeletePeer || Close, 5 Close || Close
 	trigK   string
 	trigN   int
 	api2J   int // tails 3/4: the second API goroutine acts api2J steps after DeletePeer was called
@@ -182,8 +182,8 @@ func c01Run(p c01Params, ch vrt.Chooser, trace, baseline bool) (*world.World, *v
 			}
 			vrt.WaitQuiescent()
 		}
-		if p.tail == 3 || p.tail == 4 {
-			// a second API goroutine races with DeletePeer
+		if p.tail >= 3 && p.tail <= 5 {
+			// a second API goroutine races with DeletePeer (tails 3, 4) or with Close (tail 5)
 			t0 := vrt.Cur().Steps()
 			vrt.GoWorld("api2", func() {
 				vrt.WaitStep(t0 + p.api2J)
@@ -194,7 +194,11 @@ func c01Run(p c01Params, ch vrt.Chooser, trace, baseline bool) (*world.World, *v
 				}
 				w.SetFlag("api2-done")
 			})
-			w.DeletePeer(remIP)
+			if p.tail == 5 {
+				w.Close()
+			} else {
+				w.DeletePeer(remIP)
+			}
 			w.WaitFlag("api2-done")
 			if p.tail == 3 {
 				rest := 44*time.Second - time.Duration(vrt.Cur().Now())
@@ -308,7 +312,7 @@ func c01Scenarios(th bool) []*Scn {
 		in, out int
 	}
 	for _, cb := range []io{{false, -1, stay}, {false, stay, -1}, {true, stay, -1}, {false, -1, 5}, {false, stay, stay}} {
-		for _, tail := range []int{3, 4} {
+		for _, tail := range []int{3, 4, 5} {
 			for _, t := range []int{0, 6000} {
 				stride := 4
 				if th {
@@ -436,7 +440,7 @@ func c01Lookup(name string) *Scn {
 func init() {
 	harness.Register(&harness.Check{
 		Property: "C01", Level: "model_checking", NeedsConc: true, QuickS: 200, ThoroughS: 1500,
-		Rule:   "stateless model checking of the real (rewritten) corebgp: {active, passive} x first inbound script x first outbound script (8 scripts each: close at accept, OPEN then close/stall, bad OPEN, handshake then stay/UPDATE+close/Cease/garbage; plus none/refused) x identifier dominance x API tail {Close | DeletePeer;Close | DeletePeer;AddPeer;Close} x trigger points (three quiescent points in virtual time and a stride over the step indices of the default execution); later reconnection attempts meet a well-behaved remote, so second sessions arise by themselves; every schedule within the delay bound (quick 1, thorough 2) is executed and the callback-history automaton (alternation, non-overlap, handler placement, GetCapabilities/OnOpenMessage per connection, session markers per connection) is evaluated on each; plus concurrent API tails (a second goroutine calling AddPeer or Close j steps into DeletePeer, j swept) and three-peer shutdown scenarios (Close while P1..P3 are Established, every peer must see its own OnClose); distinct_nontrivial = distinct observable outcomes",
+		Rule:   "stateless model checking of the real (rewritten) corebgp: {active, passive} x first inbound script x first outbound script (8 scripts each: close at accept, OPEN then close/stall, bad OPEN, handshake then stay/UPDATE+close/Cease/garbage; plus none/refused) x identifier dominance x API tail {Close | DeletePeer;Close | DeletePeer;AddPeer;Close} x trigger points (three quiescent points in virtual time and a stride over the step indices of the default execution); later reconnection attempts meet a well-behaved remote, so second sessions arise by themselves; every schedule within the delay bound (quick 1, thorough 2) is executed and the callback-history automaton (alternation, non-overlap, handler placement, GetCapabilities/OnOpenMessage per connection, session markers per connection) is evaluated on each; plus concurrent API tails (a second goroutine calling AddPeer or Close j steps into DeletePeer, or Close j steps into Close, j swept) and three-peer shutdown scenarios (Close while P1..P3 are Established, every peer must see its own OnClose); distinct_nontrivial = distinct observable outcomes",
 		Assume: []string{"delay-bounded schedules", "virtual network (A3)", "quick tier samples the (dominance, tail) dimensions on a rotating diagonal of the full script matrix; thorough takes the full product"},
 		Run:    c01Check,
 		Replay: scnReplay("C01", c01Lookup),
